@@ -632,6 +632,20 @@ pub fn check_c08(h: &Hist) -> POut {
     if !h.built_ok {
         return out;
     }
+    // every handle dropped while accepted items were still buffered: the stop handling hands such
+    // items back (on_evict); one that was never applied and reached no callback has vanished
+    if h.plan.has_tag("drop_busy") && !h.ops.iter().any(|o| matches!(o.op, Op::Clear | Op::Close)) && first_error_seq(h) == u64::MAX && h.evs.iter().any(|e| matches!(&e.kind, EvKind::Note(s) if s == "drop_all")) {
+        for o in h.ops.iter().filter(|o| matches!(o.op, Op::Insert { .. }) && o.ok_true()) {
+            let Some(v) = o.val else { continue };
+            out.nontrivial = true;
+            let any_cb = h.cbs.iter().any(|c| c.val.map(|x| x.id) == Some(v.id));
+            let applied = h.obs().any(|(e, ob)| e.seq > o.inv_seq && matches!(ob, ObsEv::AddExit { key, .. } if *key == h.index_of(v.key)));
+            let in_place = h.cbs.iter().any(|c| c.in_op.map(|i| h.ops[i].inv_seq) == Some(o.inv_seq));
+            if !any_cb && !applied && !in_place {
+                out.violations.push(viol("C08", "R1-vanished-in-buffer-at-drop", o.ret_seq.unwrap(), "accepted value was still buffered when the last handle was dropped and reached no callback", format!("value {:?} accepted at seq {}: never applied by the processor, never handed to a callback", v, o.ret_seq.unwrap())));
+            }
+        }
+    }
     let Some(final_cp) = h.cps.iter().filter(|c| c.quiescent).last() else { return out };
     let Some(entries) = final_cp.snap.entries.as_ref() else { return out };
     let has_getmut_write = h.ops.iter().any(|o| matches!(o.op, Op::GetMut { write: true, .. }));
